@@ -179,11 +179,15 @@ impl World {
         let job = self.prepare(a);
         let Some(job) = job else { return json!({"t": "badaction", "v": a.to_string()}) };
         let timeout = Duration::from_millis(
-            std::env::var("VH_HANG_MS").ok().and_then(|s| s.parse().ok()).unwrap_or(4000),
+            std::env::var("VH_HANG_MS").ok().and_then(|s| s.parse().ok()).unwrap_or(2500),
         );
         match run_guarded(job, timeout) {
             Guarded::Done(out) => self.finish(out),
             Guarded::Panic(msg) => json!({"t": "panic", "v": msg}),
+            Guarded::Skipped => {
+                self.poisoned = true;
+                json!({"t": "skipped", "v": "hang budget exhausted"})
+            }
             Guarded::Hang => {
                 self.poisoned = true;
                 json!({"t": "hang", "v": a["op"].as_str().unwrap_or("")})
@@ -596,6 +600,7 @@ impl World {
 }
 
 pub enum Guarded {
+    Skipped,
     Done(Out),
     Panic(String),
     Hang,
@@ -626,7 +631,15 @@ thread_local! {
 
 /// run a call of the code under test on a long-lived executor thread behind catch_unwind and a watchdog;
 /// an executor whose call never returns is abandoned (the thread is leaked) and replaced
+pub static HANGS: std::sync::atomic::AtomicUsize = std::sync::atomic::AtomicUsize::new(0);
+/// after this many calls that never returned the process stops executing further calls (each costs a watchdog
+/// period and a leaked thread); what was seen until then is reported
+pub const HANG_BUDGET: usize = 24;
+
 pub fn run_guarded(job: Job, timeout: Duration) -> Guarded {
+    if HANGS.load(std::sync::atomic::Ordering::Relaxed) >= HANG_BUDGET {
+        return Guarded::Skipped;
+    }
     EXEC.with(|cell| {
         let mut slot = cell.borrow_mut();
         if slot.is_none() {
@@ -642,6 +655,7 @@ pub fn run_guarded(job: Job, timeout: Duration) -> Guarded {
             }
             Err(_) => {
                 *slot = None;
+                HANGS.fetch_add(1, std::sync::atomic::Ordering::Relaxed);
                 Guarded::Hang
             }
         }
